@@ -74,17 +74,308 @@ def build(dirpath, arms=(), harness_src="", stub_loc=True, replace_methods=None)
 
 _ORIG_BUILD = vmk.build
 
-T = []
+# ----------------------------------------------------------------------------- native-exhaustive back end
+NATIVE_CARGO = """[package]
+name = "u8n"
+version = "0.1.0"
+edition = "2024"
+[lib]
+path = "src/lib.rs"
+[[bin]]
+name = "u8n"
+path = "src/main.rs"
+[dependencies]
+[lints.rust]
+unexpected_cfgs = { level = "allow" }
+[profile.release]
+opt-level = 2
+overflow-checks = true
+debug-assertions = true
+debug = false
+[workspace]
+"""
+NATIVE_LIB = """#![allow(dead_code, unused_imports, unused_variables, non_snake_case, unused_mut, unused_macros, static_mut_refs, private_interfaces, clippy::all)]
+pub mod kani;
+pub mod shim;
+pub mod vm;
+"""
+
+
+def build_native(dirpath):
+    """vm.rs verbatim with K1/K2 (imports -> crate::shim which re-exports the REAL std types), K3
+    (fail -> bare panic), step -> stub.  Real maybe_gc, real Drop, real VmErrorLocation."""
+    stub = open(os.path.join(HERE, 'step_stub.rs')).read().rstrip('\n')
+    hsrc = open(os.path.join(HERE, 'harness.rs')).read()
+    info = _ORIG_BUILD(dirpath, arms=[], harness_src=hsrc, stub_loc=False, replace_methods={'step': stub})
+    counts = info['rewrites']
+    p = os.path.join(dirpath, 'src', 'vm.rs')
+    src = open(p).read()
+    src = _rep1(src, "use crate::shim::{BytecodeIndex, CompiledProgram};",
+                "use crate::kani;\nuse crate::shim::{BytecodeIndex, CompiledProgram};", "N:use_kani", counts)
+    with open(p, 'w') as f:
+        f.write(src)
+    for name, text in (("Cargo.toml", NATIVE_CARGO), ("src/lib.rs", NATIVE_LIB)):
+        with open(os.path.join(dirpath, name), 'w') as f:
+            f.write(text)
+    for name, srcname in (("src/shim.rs", "native_shim.rs"), ("src/kani.rs", "native_kani.rs"), ("src/main.rs", "native_main.rs")):
+        with open(os.path.join(dirpath, name), 'w') as f:
+            f.write(open(os.path.join(HERE, srcname)).read())
+    os.makedirs(os.path.join(dirpath, ".cargo"), exist_ok=True)
+    with open(os.path.join(dirpath, ".cargo", "config.toml"), 'w') as f:
+        f.write('[build]\nrustflags = ["--cfg", "kani", "--cfg", "u8_native"]\n')
+    return info
+
+
+def run_native(dirpath, names, timeout=900):
+    """-> {name: dict(runs, discarded, failures=[{msg, choices}], covers=[[msg, hits]], time_s, truncated)} or raises Undecided"""
+    import json
+    import subprocess
+    env = dict(os.environ)
+    env["CARGO_NET_OFFLINE"] = "true"
+    env["CARGO_TARGET_DIR"] = os.path.join(dirpath, "target-native")
+    p = subprocess.run(["timeout", "600", "cargo", "build", "--release", "--offline", "--quiet"], cwd=dirpath, env=env,
+                       capture_output=True, text=True)
+    if p.returncode != 0:
+        raise E.Undecided("u8 native crate does not compile:\n" + p.stderr[-4000:])
+    exe = os.path.join(env["CARGO_TARGET_DIR"], "release", "u8n")
+    out = {}
+    p = subprocess.run(["timeout", str(timeout), exe] + list(names), cwd=dirpath, capture_output=True, text=True)
+    for line in p.stdout.split("\n"):
+        line = line.strip()
+        if line.startswith("{"):
+            try:
+                j = json.loads(line)
+                out[j["harness"]] = j
+            except Exception:
+                pass
+    return out, p.returncode, p.stderr[-2000:]
+
+
+# ----------------------------------------------------------------------------- obligations
+P11 = ["C11"]
+BN = ("exhaustive explicit-state execution of the natively compiled real scheduler: run_queue length 0..3 at entry (every RI "
+      "state: main at any position or already finished, every thread runnable / waiting for the host / errored), budget 0..%d, "
+      "<= %d SpawnTask per run; control choices exhaustive; data the scheduler never inspects (host-function id, stack values, "
+      "error kind of non-main tasks) from representative sets")
+BK = "Kani/CBMC, run_queue length <= %d at entry (all flag combinations of RI, all u16 ids / Values symbolic); loop-free call"
+
+
+def _hl(prefix, lo, hi):
+    return ["%s_%d" % (prefix, n) for n in range(lo, hi + 1)]
+
+
+# native-exhaustive table: id, props, fn, harnesses, text
+NT = [
+    dict(id="C11.run_n_steps.budget", props=P11, fn="Runtime::run_n_steps / run_threads_round_robin", h=_hl("budget", 0, 3),
+         text="run_n_steps(k).steps_consumed <= k and == number of step() calls actually made (ghost counter), on every scheduling path; "
+              "no step() on a thread that is pending/errored/done"),
+    dict(id="C11.status.done_iff_main_done", props=P11, fn="Runtime::run_n_steps / finish_thread_turn / update_status_helper",
+         h=_hl("done_iff", 0, 3) + _hl("repeat", 1, 3),
+         text="kind == Done <=> the main thread has executed Stop (now or in an earlier call), whatever the other threads do; the stopped "
+              "main thread is kept as finished_main_thread and leaves the queue; once Done, every further call reports Done"),
+    dict(id="C11.status.error_never_done", props=P11, fn="Runtime::update_status_helper / VmGreenThread::status", h=_hl("err", 0, 3) + _hl("repeat", 1, 3),
+         text="main.error.is_some() => MainThreadError carrying that error's kind (never Done / OutOfSteps / PendingHostFunc), and it stays "
+              "reported on further calls; MainThreadError only if the main thread has an error"),
+    dict(id="C11.status.pending_host", props=P11 + ["C10"], fn="Runtime::update_status_helper / VmGreenThread::status", h=_hl("pending", 0, 3),
+         text="status = Done if main stopped, else PendingHostFunc if main waits for the host, else MainThreadError(kind) if main errored, else "
+              "PendingHostFunc if any queued task waits, else OutOfSteps; PendingHostFunc => a waiting thread is reachable through iter_threads_mut"),
+    dict(id="C11.top.is_final_value", props=P11, fn="Runtime::top / main / try_get_main", h=_hl("top", 0, 3),
+         text="after Done, Runtime::top() == the last stack slot the main thread had when it executed Stop (main found through "
+              "finished_main_thread), with stack pushes/pops/overwrites on every thread"),
+    dict(id="C10.sched.single_thread.split", props=["C10"], fn="Runtime::run_n_steps", h=["split"],
+         text="one thread, no tasks, step() made deterministic by a script indexed by the thread's own step counter: run_n_steps(k1); "
+              "run_n_steps(k2) executes the same number of instructions, ends in the same status and thread state as run_n_steps(k1+k2); "
+              "a status other than OutOfSteps is stable under further budget"),
+    dict(id="C10.sched.host_call.blocks_only_caller", props=["C10", "C11"], fn="Runtime::run_threads_round_robin / VmGreenThread::can_run / clear_pending_host_func",
+         h=_hl("host_call", 1, 2), h_thorough=["host_call_3"],
+         text="a thread with pending_host_func executes nothing and keeps waiting while every runnable thread is served in queue order; after "
+              "iter_threads_mut + clear_pending_host_func it runs again within one round"),
+    dict(id="C11.sched.no_starvation_accounting", props=P11 + ["C10"], fn="Runtime::run_threads_round_robin (skipped_threads)", h=_hl("starve", 0, 3),
+         text="the loop terminates; budget is left over only if Done or no queued thread can run; OutOfSteps => steps_consumed == k"),
+    dict(id="C11.validate.no_panic", props=P11, fn="VmGreenThread::validate / Runtime::main", h=_hl("nopanic", 0, 3) + _hl("repeat", 1, 3),
+         text="run_n_steps (also called repeatedly without servicing anything) never reaches the panics of validate() and main() never "
+              "unwraps None, from every RI state; overflow checks on"),
+    dict(id="C11.sched.invariant", props=P11 + ["C10"], fn="Runtime::new / run_n_steps", h=_hl("inv", 0, 3) + ["ri_init"],
+         text="the representation invariant RI1-RI3 (harness.rs) holds after Runtime::new and is preserved by run_n_steps; the new_threads "
+              "channel is empty on return"),
+    dict(id="C11.sched.aux_contracts.native", props=P11, fn="update_status_helper / finish_thread_turn / top / maybe_gc",
+         h=_hl("status_only", 0, 3) + _hl("top_only", 0, 3) + ["finish_turn_contract", "finish_turn_main", "gc_neutral", "smoke"],
+         text="native twins of the Kani harnesses below (same source text): cross-check of the two back ends"),
+]
+# kani table (loop-free calls only; quick tier: queue length <= 2)
+KT = [
+    dict(h="status_only", hi=3, hi_quick=1, id="C11.status.update_status_helper.kani", props=P11, fn="Runtime::update_status_helper",
+         text="on every RI state: status precedence as in C11.status.pending_host; Done <=> main finished; main error => MainThreadError(kind)"),
+    dict(h="top_only", hi=1, hi_quick=0, id="C11.top.main_lookup.kani", props=P11, fn="Runtime::top / main / try_get_main",
+         text="on every RI state with a non-empty main stack: main() is the main thread (queued or finished) and top() its last slot (all Values)"),
+    dict(h=["finish_turn_contract", "finish_turn_main"], id="C11.sched.finish_thread_turn.kani", props=P11 + ["C10"], fn="Runtime::finish_thread_turn",
+         text="returns true exactly for a done main thread (stored as finished_main_thread); a done non-main thread is dropped; any other "
+              "thread is queued at the back (all flag combinations)"),
+    dict(h=["ri_init"], id="C11.sched.invariant.init.kani", props=P11, fn="Runtime::new", text="RI holds after Runtime::new (empty program)"),
+    dict(h=["gc_neutral"], id="C11.sched.gc_neutral.kani", props=P11, fn="VmGreenThread::maybe_gc",
+         text="the real maybe_gc is a no-op on an empty-heap thread (justifies the no-op stand-in of the CBMC build)"),
+]
+
+
+def _kani_table(tier):
+    t = []
+    for r in KT:
+        r = dict(r)
+        if isinstance(r['h'], str):
+            n = r.pop('hi') if tier == "thorough" else r.pop('hi_quick')
+            r.pop('hi', None)
+            r.pop('hi_quick', None)
+            r['bounded'] = BK % n
+            r['h'] = ["vm::u8s::%s_%d" % (r['h'], k) for k in range(0, n + 1)]
+        else:
+            r['bounded'] = {"C11.sched.invariant.init.kani": "empty CompiledProgram (the queue set-up of Runtime::new does not depend on the program)",
+                            "C11.sched.gc_neutral.kani": "fresh thread with one (symbolic) stack value"}.get(r['id'], BK % 1)
+            r['h'] = ["vm::u8s::" + x for x in r['h']]
+        t.append(r)
+    return t
+
+
+def check_flag_sites():
+    """Syntactic bridge between the stub contract and the real text: in `fn step`, every statement that sets
+    error / done / pending_host_func / pending_ffi_call is immediately followed by `return false;`."""
+    body = S.method(V, r'impl VmGreenThread \{', 'step', with_attrs=False)
+    sites, bad = 0, []
+    for m in re.finditer(r'self\.(?:error|pending_host_func|pending_ffi_call)\s*=\s*Some\(|self\.done\s*=\s*true', body):
+        i, depth = m.start(), 0
+        while i < len(body):
+            c = body[i]
+            if c in '([{':
+                depth += 1
+            elif c in ')]}':
+                depth -= 1
+            elif c == ';' and depth == 0:
+                break
+            i += 1
+        rest = body[i + 1:]
+        rest = re.sub(r'^(?:\s|//[^\n]*\n)+', '', rest)
+        sites += 1
+        if not rest.startswith("return false;"):
+            bad.append(body[m.start():i + 1].split("\n")[0][:120])
+    return sites, bad, S.sha(body)
+
+
+def _native_obligations(tier, sc, want):
+    table = [r for r in NT if (not want or want in r['props'])]
+    table = [dict(r, h=r['h'] + (r.get('h_thorough', []) if tier == 'thorough' else [])) for r in table]
+    if not table:
+        return [], {}
+    maxk, spawns = (5, 2) if tier == "thorough" else (4, 1)
+    build_native(sc)
+    names = []
+    for r in table:
+        for h in r['h']:
+            if h not in names:
+                names.append(h)
+    os.environ["U8_MAXK"], os.environ["U8_SPAWNS"] = str(maxk), str(spawns)
+    try:
+        res, rc, err = run_native(sc, names, timeout=1500 if tier == "thorough" else 600)
+    finally:
+        os.environ.pop("U8_MAXK", None)
+        os.environ.pop("U8_SPAWNS", None)
+    sha = S.sha(S.item(V, r'impl Runtime \{') + S.method(V, r'impl VmGreenThread \{', 'run_n_steps') + S.method(V, r'impl VmGreenThread \{', 'validate')
+                + S.method(V, r'impl VmGreenThread \{', 'can_run') + S.method(V, r'impl VmGreenThread \{', 'status'))
+    obs, notes = [], {}
+    for r in table:
+        parts = [res.get(h) for h in r['h']]
+        st, detail, cex = E.DISCHARGED, "", None
+        t = sum(p['time_s'] for p in parts if p)
+        runs = sum(p['runs'] for p in parts if p)
+        if any(p is None or p.get('error') for p in parts):
+            st, detail = E.UNDECIDED, "no result from the native driver for %s (rc=%s) %s" % ([h for h, p in zip(r['h'], parts) if not p], rc, err[-600:])
+        else:
+            fails = [(h, f) for h, p in zip(r['h'], parts) for f in p['failures']]
+            if fails:
+                st = E.FAILED
+                detail = "\n".join("%s: %s  choices=%s" % (h, f['msg'], f['choices']) for h, f in fails[:4])
+                cex = dict(harness=fails[0][0], message=fails[0][1]['msg'], choices=fails[0][1]['choices'])
+            elif any(p['truncated'] for p in parts):
+                st, detail = E.UNDECIDED, "enumeration truncated (U8_MAX_RUNS)"
+            elif not any(hits > 0 for p in parts for _, hits in p['covers']):
+                st, detail = E.UNDECIDED, "vacuity guard: no cover statement reached"
+        notes[r['id']] = dict(executions=runs, covers={h: p['covers'] for h, p in zip(r['h'], parts) if p})
+        obs.append(E.Obligation(r['id'], r['props'], UNIT, r['fn'], "native-exhaustive", st, detail, t, V, sha,
+                                BN % (maxk, spawns), r['text'], cex=cex))
+    return obs, notes
 
 
 def run(tier="quick"):
+    want = os.environ.get("ABRA_VERIF_PROP")
+    obs, notes = [], {}
+    # 1. syntactic bridge stub <-> real step()
+    if not want or want in ("C11", "C10"):
+        sites, bad, sha = check_flag_sites()
+        st = E.DISCHARGED if (sites >= 10 and not bad) else (E.FAILED if bad else E.UNDECIDED)
+        obs.append(E.Obligation("C11.step.flag_sites_return_false", ["C11", "C10"], UNIT, "VmGreenThread::step", "syntactic", st,
+                                "\n".join(bad[:6]) if bad else ("" if sites >= 10 else "only %d flag sites found (anchor lost?)" % sites),
+                                0.0, V, sha, None,
+                                "every statement of step() that sets error / done / pending_host_func / pending_ffi_call is immediately followed "
+                                "by `return false;` (%d sites) - the shape the step stub assumes" % sites))
+        notes["flag_sites"] = sites
+    # 2. native-exhaustive back end (all obligations)
+    sc = E.Scratch("u8n")
+    try:
+        o2, n2 = _native_obligations(tier, sc.path, want)
+        obs += o2
+        notes["native"] = n2
+    finally:
+        sc.cleanup()
+    # 3. Kani on the loop-free calls
+    if os.environ.get("ABRA_U8_NO_KANI"):
+        return obs, dict(assumptions=U8_ASSUMED, trusted_base=[], checker_cmds=[], notes=notes)
     vmk.build = build
     try:
-        return vmk.run_table(UNIT, "u8", [], os.path.join(HERE, "harness.rs"), T, timeout=600, jobs=3,
-                             extra_info=dict(assumptions=U8_ASSUMED))
+        o3, info = vmk.run_table(UNIT, "u8", [], os.path.join(HERE, "harness.rs"), _kani_table(tier), timeout=600, jobs=3,
+                                 extra_info=dict(assumptions=U8_ASSUMED))
     finally:
         vmk.build = _ORIG_BUILD
+    obs += o3
+    info.setdefault('notes', {}).update(notes)
+    info['assumptions'] = list(info.get('assumptions', [])) + [
+        "native/U8: same step stub and RI as the Kani build; everything else is the real vm.rs text on the real std (VecDeque, mpsc, Arc, "
+        "Mutex), real maybe_gc, real Drop; only rewrites: imports K1/K2 (-> re-exports of std), K3 (fail -> bare panic), step -> stub",
+        "native/U8: exhaustiveness of the enumeration rests on units/u8_sched/native_kani.rs (odometer over choice points, replay determinism "
+        "checked at run time) - cross-checked against CBMC on the harnesses both back ends run",
+    ]
+    info['trusted_base'] = list(info.get('trusted_base', [])) + ["rustc 1.95 native build (release, overflow-checks + debug-assertions on)",
+                                                               "units/u8_sched/native_kani.rs (170-line exhaustive enumerator)"]
+    info['checker_cmds'] = list(info.get('checker_cmds', [])) + [
+        "cargo build --release --offline && ./u8n <harness>...   (crate = vm.rs verbatim + step stub + harness.rs; cfg kani,u8_native)"]
+    return obs, info
+
+
+CANNED = {
+    # behaviour reports (not violations of C11): replayed on the real CLI
+    "task_error_is_silent": ('task {\n  let a = [1,2,3]\n  println(a[5])\n  println("task after error")\n}\nvar i = 0\n'
+                             'while i < 2000 { i = i + 1 }\nprintln("main done")\n'),
+    "main_error_reported": 'task {\n  var i = 0\n  while i < 100000 { i = i + 1 }\n}\nlet a = [1]\nprintln(a[3])\nprintln("unreachable")\n',
+}
 
 
 def replay(ob):
-    return None, dict(note="no replay")
+    """native obligations: the counterexample IS a concrete execution of the natively compiled real scheduler; re-run it.
+    status obligations additionally get the real CLI's view of a main-thread error."""
+    import abra_cli
+    extra = {}
+    confirmed = None
+    if ob.backend == "native-exhaustive" and ob.cex:
+        sc = E.Scratch("u8r")
+        try:
+            build_native(sc.path)
+            res, rc, err = run_native(sc.path, [ob.cex['harness']], timeout=600)
+            r = res.get(ob.cex['harness'])
+            if r is not None:
+                confirmed = True if r['failures'] else False
+                extra['native_rerun'] = dict(failures=r['failures'][:2], runs=r['runs'])
+        finally:
+            sc.cleanup()
+    if ob.id.startswith("C11.status.error"):
+        out, err, rc = abra_cli.run_program(CANNED["main_error_reported"], timeout=20)
+        extra['cli_main_error'] = dict(stdout=out[:200], stderr=err[:300], exit_code=rc)
+        if confirmed is None and (rc == 0 or "indexed past the end" not in err):
+            confirmed = True
+    return confirmed, extra
